@@ -154,6 +154,14 @@ def run(ctx: core.Ctx):
                         items += [it for it in v["abs"] if it["id"].endswith("/graph")]
                 if r.get("abs0"):
                     items += [it for it in r["abs0"] if it["id"].endswith("/graph")]
+    fams = optgen.direction_family(ctx, want_abs=True)
+    for fam, res in fams:
+        if isinstance(res, dict):
+            for v in res["variants"]:
+                if v.get("abs"):
+                    items += [it for it in v["abs"] if it["id"].endswith("/graph")]
+            if res.get("abs0"):
+                items += [it for it in res["abs0"] if it["id"].endswith("/graph")]
     # identical abstract graphs are judged once; TLC wraps long printed tuples, so the batch uses short ids
     uniq = {}
     key_of = {}
@@ -192,6 +200,41 @@ def run(ctx: core.Ctx):
     nlib = 0
     for plan, res in lib:
         nlib += judge_lib(ctx, plan, res, wf)
+    for fam, res in fams:
+        name = fam[0]
+        if res is core.HANG:
+            ctx.report({"kind": "family", "name": name, "symptom": "hang"}, f"family {name}: an entry point did not terminate within 200 s")
+            continue
+        if isinstance(res, core.MachineryErrorResult):
+            raise core.MachineryError(f"family {name}: {res}")
+        if res["skip"]:
+            raise core.MachineryError(f"family model {name} is not a valid/executable model: {res['skip']}")
+        w0 = wf.get(f"{name}/orig/graph")
+        for v in res["variants"]:
+            ctx.add("evaluations")
+            ctx.add("family_runs")
+            if v["changed"]:
+                ctx.add("family_runs_where_a_rule_fired")
+            base = {"kind": "family", "name": name, "variant": v["name"]}
+            if v["exc"]:
+                ctx.report(dict(base, symptom="raise", detail=v["exc"], site=v["site"]), f"family {name}: {v['name']} raised on a valid model: {v['exc']} (at {v['site']})")
+                continue
+            if v["check"]:
+                ctx.report(dict(base, symptom="check", detail=v["check"]), f"family {name}: {v['name']}: onnx.checker rejects the result: {v['check']}")
+            for d in v["sig"]:
+                ctx.report(dict(base, symptom="sig", detail=d), f"family {name}: {v['name']}: interface changed: {d}")
+            w = wf.get(f"{name}/{v['name']}/graph")
+            if w is not None and w0 is not None:
+                w = (w[0] or v.get("ssa_scoped", False), w[1], w[2], w[3])
+                bad = [n2 for n2, ok, ok0 in zip(("SSA", "scope/topological order", "", "opset imports"), w, w0) if n2 and ok0 and not ok]
+                if bad:
+                    ctx.report(dict(base, symptom="wf", detail=bad), f"family {name}: {v['name']}: Graph.tla WF fails on the result: {bad}")
+            for k, symptom, detail in v["fail"]:
+                if symptom == "load":
+                    ctx.report(dict(base, probe=k, symptom=symptom, detail=detail), f"family {name}: {v['name']}: the runtime cannot load the result: {detail}")
+                    break
+    if not ctx.coverage.get("family_runs_where_a_rule_fired"):
+        raise core.MachineryError("vacuity: no rule fired on any family model")
     ctx.set("library_models", len(lib))
     ctx.set("library_runs", nlib)
     ctx.set("distinct_nontrivial", nontriv)
@@ -217,6 +260,9 @@ def replay(ctx, path):
                 "raised": "", "outs": c["expect"], "ops": [], "world": c.get("world")}
         r = optgen.replay_case((0, case, [c["variant"]], False))
         print(json.dumps(r, indent=1, default=str)[:4000])
+    elif c.get("kind") == "family":
+        fam = [f for f in optgen.family_models(ctx) if f[0] == c["name"]]
+        print(json.dumps(optgen.replay_family(fam[0][:3] + ([c["variant"]], fam[0][4], False)), indent=1, default=str)[:4000] if fam and c.get("variant") else "family model not found for this seed")
     elif c.get("kind") == "library":
         r = optgen.replay_library((c["rel"], [c["mode"]] if "mode" in c else c["modes"], [c["variant"]] if "variant" in c else c["variants"], False))
         print(json.dumps(r, indent=1, default=str)[:4000])
